@@ -13,7 +13,7 @@ for m in sorted(glob.glob(os.path.join(VERIF, 'seeded', '*', 'meta.json'))):
     res = c.get('check_results', {}).get(d['property'], {})
     rows.append((name, d['property'], d.get('summary', '').replace('|', '/'), d.get('needs', '').replace('|', '/'),
                  'caught' if c.get('detected_by_own_property_check') else ('caught by ' + '/'.join(c.get('detected_by_checks', [])) + ' only' if c.get('detected_by_checks') else 'MISSED'),
-                 res.get('first', '')[:160].replace('|', '/'), c.get('repo_head', '')))
+                 res.get('first', '')[:160].replace('|', '/'), c.get('repo_head', '') + (' — ' + d['note'].replace('|', '/') if d.get('note') else '')))
 with open(os.path.join(VERIF, 'seeded', 'SUMMARY.md'), 'w') as f:
     f.write('# Seeded changes (made by independent sub-agents from the property text only)\n\n')
     f.write('Each: 111 tests green with the change, demo.py exits 1 with it and 0 without; verdict of `./check <prop> --tier quick` '
